@@ -98,9 +98,10 @@ def users_and_creds(rnd, lens):
     return users, creds
 
 
-def small_config(k, seed, level):
+def small_config(k, seed, level, variant=0):
     """Short fields, every segmentation (CutMode all).  level 0: the graph that is replayed edge by edge in the
-    quick tier; 1: quick design run / thorough graph; 2: thorough design run."""
+    quick tier (its alternatives rotate with `variant`; six variants cover every alternative, among them all
+    twelve abort codes); 1: quick design run; 2: thorough design run."""
     rnd = random.Random(seed * 7919 + 1 + level)
     users, creds = users_and_creds(rnd, (1, 2))
     w = k["Wire"]
@@ -110,6 +111,7 @@ def small_config(k, seed, level):
     d3 = addr("dom", rbytes(rnd, 3, HOSTCHARS), 80)
     dx = addr("dom", rbytes(rnd, 2), rnd.randrange(65536))          # any byte values: SOCKS5 / ss-none only
     d0, bad = addr("dom0", [], 80), addr("bad", [], 0)
+    v6h, v4h = addr("v6", v6["b"], 80), addr("v4", v4["b"], 80)      # port 80: the Host header may omit it
     c = base_consts(k)
     allcodes = [w[x] for x in DC[1:]]
     plans = [plan([(0, False)]), plan([(1, False)]), plan([(3, False)]), plan([(3, True)]),
@@ -117,17 +119,18 @@ def small_config(k, seed, level):
              plan([(0, False), (4, True)]), plan([(1, False)], xh=1), plan([(2, False)], meth="GET"),
              plan([(0, False)], meth="GET")]
     if level == 0:
-        addrs, haddrs = [rnd.choice([v4, v6]), dx, rnd.choice([d0, bad])], [rnd.choice([v4, v6]), d3, d0]
-        mls = [[0], [2], rnd.choice([[1, 2, 0], [0, 2], [2, 1, 0]])]
-        cidx = [0, 1, rnd.choice([3, 4, 5]), rnd.choice([6, 7, 8])]
-        cmds = [w["CmdConnect"], rnd.choice([w["CmdUdp"], w["CmdBind"]])]
-        ens = [rnd.choice([[True, True], [True, False]])]
-        bnds = ["v4", rnd.choice(["dom", "v6"])]
-        plans = [plans[i] for i in (0, 1, 3, 4, 5, 7, 8)]
-        allcodes = rnd.sample(allcodes, 3)
+        pick = lambda opts: opts[variant % len(opts)]
+        addrs, haddrs = [pick([v4, v6]), dx, pick([d0, bad, d0])], [pick([v6h, v4h, v6, v4]), d3, d0]
+        mls = [[0], [2], pick([[1, 2, 0], [0, 2], [2, 1, 0]])]
+        cidx = [0, 1, pick([3, 4, 5]), pick([6, 7, 8, 2])]
+        cmds = [w["CmdConnect"], pick([w["CmdUdp"], w["CmdBind"], w["CmdUdp"]])]
+        ens = [pick([[True, True], [True, False], [True, True], [False, True]])]
+        bnds = ["v4", pick(["dom", "v6"])]
+        plans = [plans[i] for i in (0, 1, 3, 4, 5, 7, 8)] if variant % 2 == 0 else [plans[i] for i in (0, 2, 4, 6, 7, 9)]
+        allcodes = [allcodes[(3 * variant + i) % len(allcodes)] for i in range(3)]
         maxdata, wsz, rsz = 2, [2], [0, 1]
     elif level == 1:
-        addrs, haddrs = [v4, v6, dx, d0, bad], [v4, v6, d3, d0]
+        addrs, haddrs = [v4, v6, dx, d0, bad], [v4, v6h, d3, d0]
         mls = [[0], [2], [0, 2], [1, 2, 0], [1]]
         cidx = [0, 1, 2, 3, 4, 5, 6, 7, 8]
         cmds = [w["CmdConnect"], w["CmdBind"], w["CmdUdp"]]
@@ -135,7 +138,7 @@ def small_config(k, seed, level):
         bnds = ["v4", "v6", "dom"]
         maxdata, wsz, rsz = 2, [1, 2], [0, 1]
     else:
-        addrs, haddrs = [v4, v6, d1, dx, d3, d0, bad], [v4, v6, d1, d3, d0]
+        addrs, haddrs = [v4, v6, d1, dx, d3, d0, bad], [v4h, v6, v6h, d1, d3, d0]
         mls = [[0], [2], [0, 2], [1, 2, 0], [1], [2, 2], [2, 0]]
         cidx = [0, 1, 2, 3, 4, 5, 6, 7, 8]
         cmds = [w["CmdConnect"], w["CmdBind"], w["CmdUdp"]]
@@ -204,7 +207,7 @@ def drive(v, binary, behs, users, creds, seed, what, timeout=900, extra_params=N
     runs = steps = distinct = 0
     modes = {}
     for res, out, rc in common.run_parallel(binary, "TestHandshake", inputs, timeout):
-        if res is None and rc != 0 and ("panic:" in out or "fatal error:" in out) and "shadowsocks-go/" in out.split("goroutine")[1 if "goroutine" in out else 0]:
+        if res is None and rc != 0 and ("panic:" in out or "fatal error:" in out) and "database64128/shadowsocks-go" in out:
             v.violation("hs/panic", "the code under test panicked during replay: " + out[-1500:], {"stdout": out[-4000:]})
             continue
         res = common.absorb(v, res, out, rc, what)
@@ -220,10 +223,14 @@ def drive(v, binary, behs, users, creds, seed, what, timeout=900, extra_params=N
     return runs, steps, distinct
 
 
-def graph_replay(v, binary, cfg, users, creds, seed, name, workers, timeout, max_paths=None, walks=0):
+def graph_tlc(cfg, workers, timeout):
     c = dict(cfg)
     c["EMIT"] = "ACTION_CONSTRAINT Emit"
-    g = vlib.tlc(SPEC, "MCHandshake", "MCHandshake.cfg", c, workers=workers, timeout=timeout, edges=True)
+    return vlib.tlc(SPEC, "MCHandshake", "MCHandshake.cfg", c, workers=workers, timeout=timeout, edges=True)
+
+
+def graph_replay(v, binary, g, users, creds, seed, name, max_paths=None, walks=0):
+    """Replay a path cover of every edge of an emitted state graph on the real code."""
     if g.violation:
         raise vlib.Broken("graph configuration %s violates %s in the design: %s" % (name, g.violation, g.out[-1500:]))
     graph = vlib.Graph(g)
@@ -232,10 +239,22 @@ def graph_replay(v, binary, cfg, users, creds, seed, name, workers, timeout, max
     if walks:
         behs += [graph.behaviour(p) for p in graph.random_walks(walks, 40, seed=seed)]
     runs, steps, distinct = drive(v, binary, behs, users, creds, seed, "replay of " + name)
+    acts = {}
+    for e in graph.edges:
+        acts[e[1]["n"]] = acts.get(e[1]["n"], 0) + 1
     v.coverage.setdefault("graphs", {})[name] = {"distinct": g.distinct, "generated": g.generated, "edges": len(graph.edges),
                                                  "scenarios": len(graph.inits), "paths": len(paths), "uncovered_edges": left,
-                                                 "runs_on_real_code": runs, "steps": steps, "tlc_wall_s": round(g.wall, 1)}
-    return g, runs, steps, distinct, left
+                                                 "runs_on_real_code": runs, "steps": steps, "tlc_wall_s": round(g.wall, 1),
+                                                 "edges_by_action": acts}
+    for n_, c_ in acts.items():
+        v.coverage.setdefault("actions_replayed", {})
+        v.coverage["actions_replayed"][n_] = v.coverage["actions_replayed"].get(n_, 0) + c_
+    return runs, steps, distinct, left
+
+
+ALL_ACTIONS = ["C_Start", "C_Close", "C_ReadMsel", "C_ReadAuth", "C_ReadRep5", "C_ReadRepRest", "C_HFill", "C_HParse",
+               "S_Eof", "S_M3", "S_MRest", "S_A4", "S_ARest", "S_APw", "S_R5", "S_RRest", "S_UdpHold", "S_N2", "S_NRest",
+               "S_HFill", "S_HParse", "Proceed", "Abort", "Deliver", "AppWrite", "AppRead", "ClientClose"]
 
 
 def run(tier, seed, replay):
@@ -252,14 +271,11 @@ def run(tier, seed, replay):
         doc = json.load(open(replay))
         rp = doc["replay"].get("replay") or doc["replay"].get("Replay") or doc["replay"]
         if rp.get("kind") == "reptable":
-            bad = check_reply_table(v, k, rp["spec"])
+            check_reply_table(v, k, {int(c): r for c, r in rp["spec"].items()})
             v.coverage.update(states=1, transitions=256, traces_validated_against_impl=1)
+            v.sample(rp)
             return v.finish()
-        beh = {"init": rp["init"], "steps": [{"a": a, "o": {"quiet": False}} for a in rp["steps"]], "cex": True}
-        # the observations are not stored with a finding: regenerate them is not possible, so the replay re-checks
-        # the property oracles that do not need them (addresses, users, auth gate, stream contents)
-        if rp.get("obs"):
-            beh["steps"] = [{"a": a, "o": o} for a, o in zip(rp["steps"], rp["obs"])]
+        beh = {"init": rp["init"], "steps": rp["steps"], "cex": True}
         res, out, rc = vlib.run_driver(binary, "TestHandshake", {"behaviours": [beh], "seed": rp.get("seed", seed),
                                                                    "consts": {"Users": rp["users"], "Creds": rp["creds"]},
                                                                    "params": {"mode": rp["mode"]}}, 120)
@@ -269,57 +285,55 @@ def run(tier, seed, replay):
         return v.finish()
 
     v.coverage["constants_from_code"] = k["Wire"]
-    nrep = nsteps = 0
+    nrep = nsteps = uncovered = distinct = 0
     states = transitions = 0
 
-    with ThreadPoolExecutor(max_workers=4) as ex:
+    with ThreadPoolExecutor(max_workers=10) as ex:
         # (1) design, exhaustive, no graph: short fields with every segmentation ...
         dcfg, _, _ = small_config(k, seed, 2 if big else 1)
-        fdesign = ex.submit(vlib.tlc, SPEC, "MCHandshake", "MCHandshake.cfg", dcfg, 16 if big else 8, 1500 if big else 400, False,
+        fdesign = ex.submit(vlib.tlc, SPEC, "MCHandshake", "MCHandshake.cfg", dcfg, 16 if big else 8, 3000, False,
                             None, None, None, (), "8g", True)
-        # ... and (thorough) fields at their maximum lengths with boundary segmentations
+        # ... and fields at their maximum lengths with boundary segmentations
         flong = None
         if big:
-            lcfg, lusers, lcreds = long_config(k, seed, 2)
-            flong = ex.submit(vlib.tlc, SPEC, "MCHandshake", "MCHandshake.cfg", lcfg, 16, 1500, False)
+            lcfg, _, _ = long_config(k, seed, 2)
+            flong = ex.submit(vlib.tlc, SPEC, "MCHandshake", "MCHandshake.cfg", lcfg, 16, 3000, False)
 
-        # (2) graphs replayed edge by edge on the real code
-        gcfg, gusers, gcreds = small_config(k, seed, 1 if big else 0)
-        g, runs, steps, distinct, left = graph_replay(v, binary, gcfg, gusers, gcreds, seed, "short-fields", 16 if big else 8,
-                                                      1500 if big else 400, walks=2000 if big else 0)
-        nrep += runs
-        nsteps += steps
-        uncovered = left
-        if big:
-            for sub in (1, 2):
-                gcfg2, u2, c2 = small_config(k, seed * 31 + sub, 0)
-                _, runs, steps, _, left = graph_replay(v, binary, gcfg2, u2, c2, seed + sub, "short-fields-bytes-%d" % sub, 8, 900)
-                nrep += runs
-                nsteps += steps
-                uncovered += left
-        # (3) maximum-length fields on the real code
-        lq, luq, lcq = long_config(k, seed, 1 if big else 0)
-        _, runs, steps, _, left = graph_replay(v, binary, lq, luq, lcq, seed, "max-length-fields", 16 if big else 8, 1500 if big else 400)
-        uncovered += left
-        nrep += runs
-        nsteps += steps
+        # (2) state graphs whose every edge is replayed on the real code: short fields (every cut), maximum-length
+        #     fields (boundary cuts) and, in the thorough tier, two more byte concretisations of the short-field graph
+        jobs = []
+        variants = range(6) if big else [seed % 6]
+        for i, var in enumerate(variants):
+            c2, u2, cr2 = small_config(k, seed * 31 + i, 0, var)
+            jobs.append(("short-fields-v%d" % var, ex.submit(graph_tlc, c2, 4, 3000), u2, cr2, seed + i, 1500 if big else 0))
+        lq, lu, lc = long_config(k, seed, 1 if big else 0)
+        jobs.append(("max-length-fields", ex.submit(graph_tlc, lq, 8 if big else 4, 3000), lu, lc, seed, 0))
+        gstates = gtrans = 0
+        for name, fut, us, cr, sd, walks in jobs:
+            g = fut.result()
+            runs, steps, dist, left = graph_replay(v, binary, g, us, cr, sd, name, walks=walks)
+            nrep += runs
+            nsteps += steps
+            uncovered += left
+            distinct = max(distinct, dist)
+            gstates += g.distinct
+            gtrans += g.generated
 
         design = fdesign.result()
-        if design.violation:
-            raise vlib.Broken("the design violates %s for %s" % (design.violation, "short fields"))
-        states += design.distinct
-        transitions += design.generated
-        v.coverage["design_exhaustive"] = {"short-fields": {"distinct": design.distinct, "generated": design.generated,
-                                                            "depth": design.depth, "wall_s": round(design.wall, 1)}}
-        if flong:
-            lr = flong.result()
-            if lr.violation:
-                raise vlib.Broken("the design violates %s for maximum-length fields" % lr.violation)
-            states += lr.distinct
-            transitions += lr.generated
-            v.coverage["design_exhaustive"]["max-length-fields"] = {"distinct": lr.distinct, "generated": lr.generated,
-                                                                    "depth": lr.depth, "wall_s": round(lr.wall, 1)}
-    # (4) the reply table of the compiled code against the spec's, for every value of the code byte
+        for name, r in (("short-fields", design), ("max-length-fields", flong.result() if flong else None)):
+            if r is None:
+                continue
+            if r.violation:
+                raise vlib.Broken("the design violates %s for %s" % (r.violation, name))
+            states += r.distinct
+            transitions += r.generated
+            v.coverage.setdefault("design_exhaustive", {})[name] = {"distinct": r.distinct, "generated": r.generated,
+                                                                    "depth": r.depth, "wall_s": round(r.wall, 1)}
+    missing = [a for a in ALL_ACTIONS if not v.coverage.get("actions_replayed", {}).get(a)]
+    if missing and big:
+        raise vlib.Broken("spec actions never replayed on the real code in this run: %s" % missing)
+
+    # (3) the reply table of the compiled code against the spec's, for every value of the code byte
     table = spec_reply_table(design.out)
     if table is None:
         raise vlib.Broken("the spec did not print its reply table")
@@ -327,8 +341,8 @@ def run(tier, seed, replay):
     check_reply_table(v, k, table)
     v.violations = v.violations[nv:] + v.violations[:nv]
 
-    v.coverage["states"] = states + g.distinct
-    v.coverage["transitions"] = transitions + g.generated
+    v.coverage["states"] = states + gstates
+    v.coverage["transitions"] = transitions + gtrans
     v.coverage["traces_validated_against_impl"] = nrep
     v.coverage["replayed_steps"] = nsteps
     v.coverage["distinct_action_outcomes"] = distinct
@@ -337,8 +351,31 @@ def run(tier, seed, replay):
                       "the parties are sequential: one goroutine per side during the handshake",
                       "data is written into the tunnel only after the handshake completed on the writer's side "
                       "(early data before an HTTP 2xx is outside the property)",
-                      "TLS variants of the HTTP proxy are not exercised"]
+                      "TLS variants of the HTTP proxy are not exercised; IPv4-mapped IPv6 targets are compared unmapped"]
     return v.finish()
+
+
+def selftest():
+    """Vacuity and teeth of the design spec (not part of the registered tiers): no dead action under
+    -coverage 1, and the two design mutants are refuted by TLC."""
+    work = vlib.scratch("c07self")
+    k = common.vconst(work)
+    c, _, _ = small_config(k, 1, 0)
+    r = vlib.tlc(SPEC, "MCHandshake", "MCHandshake.cfg", c, workers=8, timeout=1800, edges=False, extra=("-coverage", "1"), keep_out=True)
+    import re
+    last = {}
+    for m in re.finditer(r"^<(\w+) line \d+, col \d+ to line \d+, col \d+ of module Handshake>: (\d+):(\d+)", r.out, re.M):
+        last[m.group(1)] = int(m.group(3))
+    dead = [a for a, n in last.items() if n == 0]
+    print("coverage:", last)
+    assert not dead, dead
+    for variant, inv in (("lookup-after-overwrite", None), ("raw-conn-after-2xx", "Transparent")):
+        c2 = dict(c)
+        c2["Variant"] = variant
+        r = vlib.tlc(SPEC, "MCHandshake", "MCHandshake.cfg", c2, workers=8, timeout=1800, edges=False)
+        print("design mutant", variant, "->", r.violation)
+        assert r.violation and (inv is None or r.violation == inv)
+    print("selftest ok")
 
 
 def check_reply_table(v, k, table):
